@@ -94,6 +94,17 @@ def run(ctx):
         for ra in (None, 0, 2):
             specs.append(flowcheck.prepare(dict(tag="C07/p%03d" % len(specs), certs=[cert], attempts=2, endpoints={"A": {"ca": dict(ca, retry_after=ra)}},
                                                 meta={"family": "object never ready", "ca": dict(ca, retry_after=ra)})))
+    # the post-operation hook is ALSO listed for file events (an audit/reload hook): it still reports every attempt exactly once
+    for fault in (None, "acme:unauthorized:403"):
+        hooks = []
+        for h in standard_hooks():
+            h = dict(h)
+            if h["name"] == "post-operation":
+                h["type"] = ["file-post-create", "file-post-edit", "post-operation"]
+            hooks.append(h)
+        script = [{"kind": "finalize", "nth": 1, "fault": fault, "repeat": 1}] if fault else []
+        specs.append(flowcheck.prepare(dict(tag="C07/x%03d" % len(specs), certs=[cert], attempts=2, hooks=hooks, endpoints={"A": {"script": script}},
+                                            meta={"family": "post-operation hook that is also a file hook", "fault": fault})))
     specs += hook_exit_specs(ctx.tier, ctx.seed)
     specs += fault_and_hook_specs(ctx.tier, ctx.seed, pos)
     specs += multi_cert_specs(ctx.tier, ctx.seed)
